@@ -1093,6 +1093,12 @@ func (repo *Repository) Save(ctx context.Context) error {
 	repo.Lock()
 	defer repo.Unlock()
 
+	// Consolidate the longest branch into the main branch first. Saving the main branch files
+	// requires the longest branch to be contiguous back to the oldest header.
+	if err := repo.consolidate(ctx); err != nil {
+		return errors.Wrap(err, "consolidate")
+	}
+
 	if err := repo.saveMainBranch(ctx); err != nil {
 		return errors.Wrap(err, "main branch")
 	}
